@@ -24,27 +24,28 @@ def _swap(av):
 
 
 def _in_class(items, ch, o):
+    """Membership of code point o in a character class, as ONE boolean built with non-short-circuit | and &
+    (a symbolic executor then forks once per character instead of once per range bound)."""
     neg = False
     res = False
     for op, av in items:
         if op is C.NEGATE:
             neg = True
         elif op is C.LITERAL:
-            if o == av:
-                res = True
+            res = res | (o == av)
         elif op is C.RANGE:
             lo, hi = av
-            if lo <= o <= hi:
-                res = True
+            res = res | ((lo <= o) & (o <= hi))
         elif op is C.CATEGORY:
             if av is C.CATEGORY_DIGIT:
-                if 48 <= o <= 57 or (o > 127 and ch.isdigit()):
-                    res = True
+                res = res | ((48 <= o) & (o <= 57))
+                if o > 127:
+                    res = res | ch.isdigit()
             else:
                 raise NotImplementedError(av)
         else:
             raise NotImplementedError(op)
-    return res != neg
+    return (not res) if neg else res
 
 
 def _m(seq, i, text, pos, flags, groups, cont):
@@ -55,7 +56,7 @@ def _m(seq, i, text, pos, flags, groups, cont):
     op, av = seq[i]
     n = len(text)
     if op is C.LITERAL:
-        if pos < n and (ord(text[pos]) == av or (flags & SRE_FLAG_I and _swap(av) is not None and ord(text[pos]) == _swap(av))):
+        if pos < n and ((ord(text[pos]) == av) | ((ord(text[pos]) == _swap(av)) if (flags & SRE_FLAG_I and _swap(av) is not None) else False)):
             yield from _m(seq, i + 1, text, pos + 1, flags, groups, cont)
     elif op is C.NOT_LITERAL:
         if pos < n and ord(text[pos]) != av:
